@@ -275,7 +275,8 @@ def synthetic_cases(draw):
                        reachability_strategies=reach, final_strategies=final,
                        total_time=draw(st.floats(0, 100)), msg=draw(MSG), rewards=draw(VEC), rew_min_reach=draw(VEC),
                        probabilities=draw(VEC), prob_min_rew=draw(VEC))
-    path = draw(st.sampled_from(("inputs/{}.py", "{}.py", "inputs/sub/{}.py", "./inputs/{}.py"))).format(draw(IDENT))
+    path = draw(st.sampled_from(("inputs/{}.py", "{}.py", "inputs/sub/{}.py", "./inputs/{}.py", "inputs/v1.2/{}.py",
+                                  "/abs/path.d/inputs/{}.py", "inputs/../inputs/{}.py"))).format(draw(IDENT))
     return dict(kind="synthetic", results=res, path=path)
 
 
